@@ -27,7 +27,7 @@ SPECS = {
     "LinearWasserstein": [{"ovo": True}], "RIM": [{"batch_size": 3}], "KernelRIM": [{}, {"base_kernel": "rbf_g", "batch_size": 2}],
     "MLPModel": [{}, {"gemini": "mi", "batch_size": 2}], "MLPMMD": [{"ovo": True}], "MLPWasserstein": [{"metric": "l1"}],
     "SparseLinearModel": [{"alpha": 0.3}, {"alpha": 0.3, "dynamic": True, "batch_size": 2}], "SparseLinearMMD": [{"alpha": 0.3, "groups": [[0, 1]]}],
-    "SparseLinearMI": [{"alpha": 0.3}], "SparseMLPModel": [{"alpha": 0.3}], "SparseMLPMMD": [{"alpha": 0.3, "batch_size": 3}],
+    "SparseLinearMI": [{"alpha": 0.3}, {"alpha": 0.0}], "SparseMLPModel": [{"alpha": 0.3}], "SparseMLPMMD": [{"alpha": 0.3, "batch_size": 3}],
     "CategoricalModel": [{}], "CategoricalMMD": [{"kernel": "rbf"}], "CategoricalWasserstein": [{}],
     "Kauri": [{}, {"max_features": 1, "max_clusters": 4}, {"max_clusters": 6, "max_leaves": 9}], "Douglas": [{}, {"n_cuts": 2, "batch_size": 2}],
 }
@@ -35,7 +35,7 @@ SET_EVENTS = {
     "gradient": [("max_iter", 2), ("learning_rate", 0.05), ("n_clusters", 2), ("solver", "sgd")],
     "batched": [("batch_size", 3)],
     "Kauri": [("max_clusters", 2), ("min_samples_leaf", 2), ("max_depth", 1), ("random_state", 5)],
-    "sparse": [("alpha", 0.05)],
+    "sparse": [("alpha", 0.05), ("alpha", 0.0)],
 }
 
 
